@@ -253,6 +253,28 @@ class _NumericSelector:
     pass
 
 
+class FakeDaskArray:
+    """What physt.compat.dask._run_dask uses of a dask array: name, __dask_keys__(), dask (the graph).  The same class is
+    handed to the interpreted and to the real function (the real dask scheduler is not involved: compute=False)."""
+
+    def __init__(self, name, nchunks):
+        self.name = name
+        self.nchunks = nchunks
+        self.dask = {(name, i): ("chunk", i) for i in range(nchunks)}
+
+    def __dask_keys__(self):
+        return [(self.name, i) for i in range(self.nchunks)]
+
+    def py_getattr(self, name):
+        from .interp import Builtin
+        if name == "__dask_keys__":
+            return Builtin("__dask_keys__", lambda: self.__dask_keys__())
+        return getattr(self, name)
+
+    def py_snapshot(self, I, memo):
+        return self
+
+
 def make_lib_modules(I):
     from .interp import ModuleNS, Builtin
     I.lib_accessors = {}
@@ -306,6 +328,12 @@ def make_lib_modules(I):
     for n in ("Int8", "Int16", "Int32", "Int64", "UInt8", "UInt16", "UInt32", "UInt64", "Float32", "Float64"):
         pl[n] = DtypeMarker(n, True)
     pl["Utf8"] = DtypeMarker("Utf8", False)
+    class _DaskArrayType(StubType):
+        def py_isinstance(self, v):
+            return isinstance(v, FakeDaskArray)
+    darr = ModuleNS("dask.array", {"Array": _DaskArrayType("dask", "Array")})
+    mods["dask"] = ModuleNS("dask", {"array": darr, "__name__": "dask"})
+    mods["dask.array"] = darr
     mods["polars"] = ModuleNS("polars", pl)
     mods["polars.api"] = plapi
     mods["polars.selectors"] = sel
